@@ -47,7 +47,7 @@ PROPS["C01"] = dict(
 
 PAIR_RULE = ("valid shapes only (simple rings checked exactly, holes strictly inside, pairwise disjoint): polygons from lattice/star/comb/convex-hull generators "
   "with 0-2 holes; B constructed in contact with A (on vertices, edge midpoints/quarter points, along boundary stretches, equal to a hole or the exterior, "
-  "bounding boxes, through boundary points) and unrelated; all 16 ordered kind pairs; 4 index configurations on every 10th polygon; collinear line x line families; "
+  "bounding boxes, through boundary points) and unrelated; all 16 ordered kind pairs; each operand of every pair under its own index configuration (none, R-tree/1, quadtree/1, quadtree/64), all four for the receiver on every 10th polygon; collinear line x line families; "
   "grids 2^-s; non-trivial: all; distinct = distinct case lines")
 
 PROPS["C02"] = dict(
@@ -128,7 +128,7 @@ PROPS["C08"] = dict(streams=["C08"], kernel_cases=100, timeout=600, rule=JSON_RU
     trusted_base=JSON_TB, assumptions=[], partial=[])
 PROPS["C17"] = dict(streams=["C17", "C17p"], kernel_cases=150, timeout=600,
     rule="random object trees built through NewPoint/NewPointZ/NewSimplePoint/NewRect/NewLineString/NewPolygon (incl. nil)/NewCircle/NewMulti*/NewGeometryCollection/NewFeatureCollection/NewFeature with finite grid values, NaN and +-Inf ordinates, 0-5 positions per series, and member strings (JSON objects with nested values rendered with random whitespace, the empty object with inner whitespace, non-object and invalid texts); per object: JSON()==String()==MarshalJSON()==AppendJSON(nil); AppendJSON onto a prefix with six spare capacities leaves the prefix untouched and appends exactly those bytes; the bytes are one valid JSON object for two independent tokenizers, with the kind's GeoJSON type name and coordinate nesting depth, no bare NaN/Inf; bytes compared with the Coq model of the writers; plus the grammar/mutant document stream of C06 for objects built through Parse (output valid JSON, spellings agree, AppendJSON appends). non-trivial: all; distinct = distinct case lines",
-    trusted_base=JSON_TB, assumptions=["negative zero is not generated (the grid has no -0; strconv prints it as -0)", "member texts containing a top-level \"feature\" key (sjson.Delete path) are not generated"], partial=["that the constructors (with arbitrary member strings) only build objects meeting the theorem's well-formedness hypotheses is exercised, not proved (for Parse it is proved: ParsedForm.v, ParsedLex.v)"])
+    trusted_base=JSON_TB, assumptions=["negative zero is not generated (the grid has no -0; strconv prints it as -0)", "member texts with duplicate or escaped \"feature\" keys are not generated (the sjson.Delete path is modelled for plain unique keys: the first member named feature is removed)"], partial=["that the constructors (with arbitrary member strings) only build objects meeting the theorem's well-formedness hypotheses is exercised, not proved (for Parse it is proved: ParsedForm.v, ParsedLex.v)"])
 
 GEO_TB = ["Coq 8.16.1 kernel; the stdlib real-number axioms (ClassicalDedekindReals.sig_forall_dec, sig_not_dec, FunctionalExtensionality.functional_extensionality_dep, Classical_Prop.classic) as Print Assumptions reports them",
           "Interval 4.x tactic (coq-interval, uses primitive integers / BigZ; kernel-checked enclosures) for the per-input tie",
